@@ -158,6 +158,27 @@ def run(ctx):
               'first_events': [{k: v for k, v in e.items()} for e in t[1]['events'][:3]]})
   ctx.extra['histories_from_TLC'] = {k: len(v) for k, v in hs.items()}
   ctx.extra['events_validated'] = sum(len(t['events']) for _, t in pairs)
+  # ---- the repository's own tests as behaviours of the per-object machine ObjLife (opaque terms): every outermost
+  # public call they make, with the projected state before/after, validated by TLC (TR_ObjLife)
+  import suite
+  for cfgname in ('MC_ObjLife.cfg', 'MC_ObjLife_points.cfg'):
+    ctx.model('MC_ObjLife', cfgname, workers=2, tag='MC_ObjLife_' + cfgname[:-4])
+  evs, summary = core.record_suite_calls(os.path.join(ctx.work, 'suite'), files=None if ctx.quick else ['test/'])
+  lp = suite.judge_life(ctx, evs, 400 if ctx.quick else 0)
+  ctx.extra['suite_object_histories']['pytest_summary'] = summary
+
+  def query_changes_model(t):
+    e = next(e for e in t['events'] if e['act'] in ('transform', 'predict', 'pair_distance', 'pair_score', 'decision_function',
+                                                    'get_metric', 'get_mahalanobis_matrix', 'score_pairs', 'score'))
+    e['after'] = dict(e['after'], dig=e['after']['dig'] + 1)
+
+  def fit_changes_params(t):
+    e = next(e for e in t['events'] if e['act'] == 'fit')
+    e['after'] = dict(e['after'], par=e['after']['par'] + 1)
+  lgood = next(t for r, t in lp if any(e['act'] == 'fit' for e in t['events'])
+               and any(e['act'] not in ('fit', 'set_threshold', 'calibrate_threshold') for e in t['events']))
+  core.selftest_binding(ctx, *suite.LIFE_SPEC, lgood, query_changes_model, 'C17.suite_query_leaves_state', 'suite_query_changes_model')
+  core.selftest_binding(ctx, *suite.LIFE_SPEC, lgood, fit_changes_params, 'C17.suite_fit_leaves_hyper_parameters', 'suite_fit_changes_params')
   # binding self-tests: a stale n_features_in_, a mutated caller array, a dropped Fit event
   good = next(t for r, t in pairs if r['src'] == 'directed' and r['est'] == 'NCA')
 
